@@ -4,6 +4,7 @@
  *   get_name_len (dns_msg_sequence_of_labels_get_name_len), labels2name (dns_msg_sequence_of_labels2name)
  * The message / buffer is an exact-size span allocated by the enforced contract's is_fresh. */
 #include "contracts/dns.h"
+#include "stubs/dns.h"
 #include "proto/dns.h"
 
 void harness(void) {
@@ -26,7 +27,7 @@ void harness(void) {
 #elif defined(VF_FN_get_name_len)
 	VF_NONDET(size_t, offset);
 	r = dns_msg_sequence_of_labels_get_name_len((dns_hdr_p)msg, msg_size, offset, len_ret);
-	VF_NATIVE_POST(r != 0 || *len_ret <= (VF_DNS_MAX_JUMPS + 1) * msg_size, "name length bound");
+	VF_NATIVE_POST(r != 0 || *len_ret <= VF_DNS_NAME_LEN_CAP, "name length bound");
 #elif defined(VF_FN_labels2name)
 	VF_NONDET(size_t, offset);
 	VF_NONDET(size_t, name_buf_size);
